@@ -140,8 +140,8 @@ def checker_stale():
     if not os.path.exists(exe):
         return True
     t = os.path.getmtime(exe)
-    deps = glob.glob(os.path.join(COQ, "Model", "*.v")) + [os.path.join(COQ, "Extract", "Extract.v"),
-                                                            os.path.join(CHECKER, "main.ml"), os.path.join(CHECKER, "dune")]
+    deps = [os.path.join(COQ, l.strip()) for l in open(os.path.join(COQ, "FILES")) if l.startswith("Model/")] + \
+           [os.path.join(COQ, "Extract", "Extract.v"), os.path.join(CHECKER, "dune")] + glob.glob(os.path.join(CHECKER, "*.ml"))
     return any(os.path.getmtime(d) > t for d in deps)
 
 # ----------------------------------------------------------------------------------------------------------------
